@@ -70,6 +70,30 @@ def main():
     open(b3, "w").write("\n".join(led[:k + 1] + [led[k]] + led[k + 1:]) + "\n")
     badl = D.validate_ledgers(ctx, [b3])
     verdict(f"Trace_Ownership rejects the ledger with one free event duplicated (double free) at event {k + 2}", len(badl) == 1 and badl[0][1] == k + 1)
+    # 4. implementation-shaped models: the scanner model predicts the real scanner; a model that differs in one rule is noticed
+    import p_od as O
+    tmpl = "CONSTANTS\n  Sigma = %s\n  MaxLen = %d\n  Prune = FALSE\nINIT Init\nNEXT Next\nINVARIANT EmitOD\nCHECK_DEADLOCK FALSE\n"
+    recs = ctx.tlc_emit("MC_SkipScan", cfg=tmpl % (O.SIG11, 3), tag="st_SkipScan", timeout=600, workers=1)
+    rows = [[str(i), hexs(r["t"]), O.path_str(r["path"]), "0", "-"] for i, r in enumerate(recs)]
+    fails, digs = O.replay_od(ctx, "c11", rows, ["prod-avx2"], [0], want_digest=True, name="st_skip")
+
+    def drift_of(pred):
+        n = 0
+        for l in digs["prod-avx2"]:
+            a = l.split("\t")
+            r = pred[int(a[0])]
+            err = int(a[2])
+            cls = 100 if err in (4, 5, 6) else err
+            if cls != r["err"] or (err == 0 and (int(a[3]) != r["start"] or int(a[4]) != r["len"])):
+                n += 1
+        return n
+    verdict(f"SkipScan predicts error class and slice of the real scanner on {len(rows)} (byte string, path) cases", drift_of(recs) == 0 and len(rows) > 10000)
+    # a model in which a backslash does not protect the following quote (one rule of SkipString changed)
+    alt = []
+    for r in recs:
+        t = bytes(r["t"])
+        alt.append(dict(r, err=(2 if (b'\\"' in t and r["err"] == 0) else r["err"])))
+    verdict("a scanner model that differs in one rule (escaped quote) is noticed by the drift comparison", drift_of(alt) > 0)
     ctx.cleanup()
     print("SELFTEST", "OK" if ok else "FAILED")
     sys.exit(0 if ok else 1)
